@@ -226,11 +226,14 @@ package keepclient
 
 // PutB computes the locator hash from the very bytes it sends.
 //@ func KeepClient.PutB property C11
+//@   requires kc.Retries >= 0
 //@   calls KeepClient.PutHB#1: requires $0 == md5hex(string(buffer)) && $1 == buffer
 
 //@ func KeepClient.PutHB property C11
+//@   requires kc.Retries >= 0
 //@   calls KeepClient.putReplicas#1: requires $0 == hash && $2 == int64(len(buf))
 
 // PutHR refuses oversized blocks before anything is uploaded.
 //@ func KeepClient.PutHR property C11 safety -bounds,-makeslice
+//@   requires kc.Retries >= 0
 //@   calls KeepClient.putReplicas#1: requires dataBytes <= 67108864 && $0 == hash && $2 == dataBytes
